@@ -565,6 +565,9 @@ func c13Inputs(b *bed, thorough bool) []c13Input {
 }
 
 func c13Run(c *fw.Ctx) {
+	{
+		interfRun(c, "C13") // statement-level interleavings of handlers on several connections (subprocess)
+	}
 	x := &c13Ctx{c: c}
 	b := x.bed()
 	if b == nil {
